@@ -104,8 +104,8 @@ TraceAnnounceSent ==
   /\ IsEvent("AnnounceSent")
   /\ LET n == Ev.dst
          rec == [dst |-> n, tok |-> Ev.token, ih |-> Ev.ih, port |-> Ev.port, implied |-> Ev.implied] IN
-     /\ On("stopped") => (fin = "announcing" /\ n \in Addrs /\ ann[n] \in {"todo", "fly"})
-     /\ On("dst") => n \in CAddrs
+     /\ On("stopped") => fin = "announcing"
+     /\ On("dst") => (n \in CAddrs /\ (fin = "announcing" => ann[n] \in {"todo", "fly"}))
      /\ (On("tok") /\ n \in CAddrs) => Ev.token = Elem(n).tok
      /\ On("args") => /\ Ev.ih = opt.target
                       /\ Ev.implied = opt.implied
@@ -139,7 +139,8 @@ TraceFinished ==
 TracePeersClosed ==
   /\ IsEvent("PeersClosed")
   /\ On("order") => (peersClosed /\ Ev.fin)
-  /\ On("owed") => \A n \in Addrs : deliv[n] = dlog[n]
+  /\ On("owed") => \A n \in Addrs : dlog[n] >= deliv[n]
+  /\ On("once") => \A n \in Addrs : dlog[n] <= deliv[n]
   /\ UNCHANGED <<vars, dlog, owed>>
 
 TraceEnd ==
